@@ -19,6 +19,7 @@ func init() {
 			"C11.asc - the 2-byte AudioSpecificConfig is 5+4+4 bits both ways and the accepted set is exactly object types {1,2,3,5,29} x index 1..12 x channels 1..7 (everything else is an error); " +
 			"C11.tables - object<->profile maps and the sampling-frequency table fold to the ISO values for every defined index. " +
 			"C11.alias - no []byte result aliases storage that outlives the call (receiver fields, package variables, pooled buffers): an item handed out earlier stays what it was. " +
+			"Also: validating a configuration stores nothing (the accepted set computed on a fresh object is the accepted set of every later call). " +
 			"Not decided: multi-frame streams of arbitrary payloads (follows by induction from 'left' being exact per frame); payload bytes as data.",
 		Assume: []string{"layout tables transcribed from ISO/IEC 13818-7 6.2 and 14496-3 1.6.2.1; don't-care bits where the standard leaves the value to the writer (id, private, original/home, copyright, buffer fullness)"},
 		Run:    runC11,
@@ -159,6 +160,26 @@ func checkASCAccepted(c *Ctx, l *layoutCtx) {
 	fn := P.Func("aac", "(*AudioSpecificConfig).UnmarshalBinary")
 	if fn == nil {
 		return
+	}
+	// the accepted set below is computed on a fresh object; it is the accepted set of every later call as well only if
+	// validating keeps no memory (a "checked once" flag would let the second, invalid configuration through)
+	if vf := P.Func("aac", "(*AudioSpecificConfig).validate"); vf != nil { // (no separate validation function: nothing to remember between calls)
+		stores := ""
+		for f := range P.Reachable(vf) {
+			if !core.InModule(f) {
+				continue
+			}
+			core.EachInstr(f, func(in ssa.Instruction) {
+				if st, ok := in.(*ssa.Store); ok {
+					if _, isAlloc := core.PathRoot(st.Addr).(*ssa.Alloc); !isAlloc {
+						stores = core.Path(st.Addr) + " at " + P.InstrPos(st)
+					}
+				}
+			})
+		}
+		R.Check(stores == "", "C11.asc", "aac|(*AudioSpecificConfig).validate|keeps-no-state", P.Pos(vf.Pos()),
+			"validating a configuration stores nothing: every call judges the values it is given",
+			"validating a configuration writes "+stores+": what a later call answers depends on an earlier one (a configuration that became invalid after a successful check is still accepted)", nil)
 	}
 	spec := abs.Cat(abs.Pack(abs.F("obj", 4, 0), abs.F("sf", 3, 1)), abs.Pack(abs.F("sf", 0, 0), abs.F("ch", 3, 0), abs.X(3)))
 	res := l.e.Run(fn, func(p *abs.Path) []abs.Value {
